@@ -740,6 +740,15 @@ theorem dfg_programs_edge_kinds (enc : String) (cmds : List Cmd) (st' : BuildSta
     (l.1.2 = -1 ↔ l.2.2 = -1) :=
   ((run_binv enc cmds {} st' hL binv_empty h).stores hid s hs).kind l hl
 
+/-- **No program of the sub-language leaves a dangling edge**: in every HUGR it has built, both ends of every link are
+    live nodes (`add_link` refuses a missing node, and no builder command removes one) — the builder-level half of C03's
+    "both endpoints of every edge name an existing node". -/
+theorem dfg_programs_no_dangling_links (enc : String) (cmds : List Cmd) (st' : BuildState)
+    (hL : ∀ c ∈ cmds, InL c) (h : Build.run enc {} cmds = .ok st')
+    (hid : Nat) (s : St) (hs : st'.getHugr hid = .ok s) (l : Port × Port) (hl : l ∈ linksList s) :
+    (∃ p, nodeParent s l.1.1 = .ok p) ∧ (∃ p, nodeParent s l.2.1 = .ok p) :=
+  ((run_binv enc cmds {} st' hL binv_empty h).stores hid s hs).live l hl
+
 /-- **`insert_hugr` keeps edge locality and edge kinds** (the step the `insert_nested / insert_cfg / insert_conditional /
     insert_tail_loop` commands add to the sub-language above): when every value link of A and of B is local or
     accompanied by its state-order link, so is every value link of the result — the image of a non-local wire of B keeps
